@@ -473,6 +473,25 @@ inductive Reach (succ : Id → List Id) (e : Id) : Id → Prop
 section Spec
 variable {V S : Type} (m : Metric V S)
 
+/-- neighbour list of `i` on `layer` (`[]` when the vertex is absent or has no such layer) -/
+def nbrsAt (s : State V) (layer : Nat) (i : Id) : List Id :=
+  match s.nodes.get? i with
+  | some n => (n.edges[layer]?).getD []
+  | none => []
+
+/-- what `searchLayer` can walk along on `layer` -/
+def liveSuccAt (s : State V) (layer : Nat) (i : Id) : List Id :=
+  if isDeleted s i then [] else (nbrsAt s layer i).filter fun t => !isDeleted s t
+
+/-- resident and not soft-deleted -/
+def liveB (s : State V) (i : Id) : Bool := s.nodes.contains i && !isDeleted s i
+
+/-- layer 0 is the complete digraph on the live vertices, and its edges resolve -/
+def complete0B (s : State V) : Bool :=
+  (liveIds s).all fun u =>
+    ((liveIds s).all fun v => u == v || (nbrsAt s 0 u).contains v) &&
+    (nbrsAt s 0 u).all fun w => s.nodes.contains w
+
 /-- what the search can walk along on the bottom layer: the layer-0 neighbours of a
     vertex that is not soft-deleted, without the soft-deleted ones -/
 def liveSucc (s : State V) (i : Id) : List Id :=
